@@ -62,7 +62,15 @@ test processes (`-p 4`) because other jobs share this machine. Do not create oth
 When done, leave the worktree with your patch applied and the demo test in place. Your final message should be a
 3–6 line summary (what changed, how it manifests, the test results).
 """
-    import os
+    import os, glob
+    avoid = []
+    for mp in sorted(glob.glob(f'/verif/seeded/{pid}*/meta.json')):
+        try:
+            avoid.append(json.load(open(mp)).get('summary', ''))
+        except Exception:
+            pass
+    if avoid:
+        t += "\n## Already known — do something DIFFERENT\n\nOther people already produced the following changes for this property; yours must break the property through a different mechanism, at a different place:\n" + "".join(f"- {a}\n" for a in avoid if a)
     os.makedirs(f'/tmp/seed/{pid}', exist_ok=True)
     open(f'/tmp/seed/{pid}/TASK.md', 'w').write(t)
     print('wrote', pid)
